@@ -658,6 +658,10 @@ def run(ctx):
                         break
         ctx.extra["apply_comparisons"] = napply
 
+    # ---- saver model (extracted save_doc) against the node tree of the files vnacal_save writes
+    import c07_savetie
+    c07_savetie.run(ctx, exe, ytree, d, (fpd, dpd))
+
     # ---- legacy versions and the sample of the test suite
     legacy(ctx, exe, ytree, d, violate_plain=lambda what, rep, sig=None: ctx.violation(
         sig or {"kind": "legacy", "class": what.split(":")[0][:60]}, "C07 legacy documents: " + what[:400], rep))
